@@ -16,7 +16,7 @@ loc=$(python3 -c "import json;m=json.load(open('$SRC/meta.json'));print(m.get('d
 demo=$(ls "$SRC"/demo_test.go "$SRC"/demo.sh 2>/dev/null | head -1)
 # where does the demo go? default: package root
 dest="$W/zz_demo_test.go"; pkg="."
-case "$loc" in *internal/tinycpm*) dest="$W/internal/tinycpm/zz_demo_test.go"; pkg=./internal/tinycpm;; *internal/zex*) dest="$W/internal/zex/zz_demo_test.go"; pkg=./internal/zex;; *cmd/cim2bin*) dest="$W/cmd/cim2bin/zz_demo_test.go"; pkg=./cmd/cim2bin;; *cmd/cim2cas*) dest="$W/cmd/cim2cas/zz_demo_test.go"; pkg=./cmd/cim2cas;; *cmd/convert_case*) dest="$W/cmd/convert_case/zz_demo_test.go"; pkg=./cmd/convert_case;; *cmd/zexdoc*) dest="$W/cmd/zexdoc/zz_demo_test.go"; pkg=./cmd/zexdoc;; esac
+case "$loc" in *internal/tinycpm*) dest="$W/internal/tinycpm/zz_demo_test.go"; pkg=./internal/tinycpm;; *internal/zex*) dest="$W/internal/zex/zz_demo_test.go"; pkg=./internal/zex;; *cmd/cim2bin*) dest="$W/cmd/cim2bin/zz_demo_test.go"; pkg=./cmd/cim2bin;; *cmd/cim2cas*) dest="$W/cmd/cim2cas/zz_demo_test.go"; pkg=./cmd/cim2cas;; *cmd/convert_case*) dest="$W/cmd/convert_case/zz_demo_test.go"; pkg=./cmd/convert_case;; *cmd/zexdoc/zz_demo*) dest="$W/cmd/zexdoc/zz_demo_test.go"; pkg=./cmd/zexdoc;; esac
 rundemo() { if [[ "$demo" == *.sh ]]; then mkdir -p "$W/SEED/$I"; echo "module seed" > "$W/SEED/go.mod"; sed "s#$SEEDROOT#$W#g" "$demo" > "$W/SEED/$I/demo.sh"; (cd "$W" && bash "$W/SEED/$I/demo.sh" > "$W/.demo.log" 2>&1); r=$?; rm -rf "$W/SEED"; return $r; else cp "$demo" "$dest"; (cd "$W" && env ${DEMOENV:-} go test -vet=off ${DEMOFLAGS:-} -run TestSeedDemo -count=1 $pkg > "$W/.demo.log" 2>&1); r=$?; rm -f "$dest"; return $r; fi; }
 rundemo; clean_demo=$?
 (cd "$W" && git apply "$SRC/patch.diff") || { echo "patch does not apply"; exit 3; }
